@@ -94,6 +94,15 @@ def chk_method(inp):
             if not numpy.allclose(lhs, rhs, rtol=0, atol=2e-3 * abs(C).max()):
                 return bad("end to end (%s, conditioning %g): the method's reconstructor does not satisfy the normal equations R C_oo = C_no on the retained subspace" % (name, cond),
                            float(abs(lhs - rhs).max() / abs(C).max()), "< 2e-3")
+            if name == "true duplicate" and cond == 0:
+                # an on-axis sensor identical to an off-axis one: the built matrix must make R reproduce that sensor, zero weight elsewhere
+                E = numpy.zeros_like(R); E[:, :n2] = numpy.eye(n2)
+                if not numpy.allclose(R, E, atol=2e-3):
+                    return bad("end to end (duplicate sensor): the reconstructor does not reproduce the duplicated sensor's slopes with zero weight on the others", float(abs(R - E).max()), "< 2e-3")
+                # and the matrix it was built from is a covariance: symmetric, positive semi-definite to single precision
+                w_ = numpy.linalg.eigvalsh((C + C.T) / 2)
+                if abs(C - C.T).max() > 1e-6 * abs(C).max() or w_.min() < -1e-5 * abs(C).max():
+                    return bad("end to end: the built covariance matrix is not symmetric positive semi-definite (to single precision)", float(w_.min() / abs(C).max()), ">= -1e-5")
 
 
 one = lambda t, s: [{}]
